@@ -232,6 +232,14 @@ class Recorder:
             rec["seed"] = self.ind(d._sprout_seed) if d._sprout_seed is not None else []
             cur = flat[-1] if flat else []
             rec["pop"] = len(cur)
+            # spread of the current population in units in the last place (capped): a population that has collapsed to
+            # float precision produces trials identical to their parents (no evaluation) - known finding KF-C18-converged
+            if cur:
+                G = np.array([i.genome for i in cur], dtype=np.float64)
+                ulp = np.spacing(np.maximum(np.max(np.abs(G), axis=0), np.finfo(float).tiny))
+                rec["spr"] = int(min(10 ** 6, float(np.max((np.max(G, axis=0) - np.min(G, axis=0)) / ulp))))
+            else:
+                rec["spr"] = 0
             c = d.centroid
             if not cur:
                 rec["cen"] = int(c is None)
